@@ -85,6 +85,7 @@ type VC struct {
 	specDepth int
 	quants []*quantRec
 	refArr map[string]bool
+	plainGoal bool
 	curFamily string
 	writes []writeRec
 	curBlock *ssa.BasicBlock
@@ -227,7 +228,7 @@ func (vc *VC) addObl(kind, name string, st *State, goal string, p token.Pos, tag
 		// trivially true: still counted, discharged syntactically
 	}
 	o := &Obl{Name: name, Kind: kind, PC: st.pc, Goal: goal, Pos: vc.pos(p), Tags: tags, Note: note}
-	if strings.Contains(goal, "(exists ") {
+	if strings.Contains(goal, "(exists ") || kind == "pre" || kind == "idx" || kind == "slice" || kind == "site" {
 		for _, a := range sortedAllocs(st.locals) {
 			v := st.locals[a]
 			if v.K == KInt && v.T != nil {
